@@ -6,7 +6,7 @@ from vf import check, reference
 from vf.model import Repo
 out = {}
 from vf import generic
-allrels = sorted({r for i in range(1, 21) for r in generic.anchors('C%02d' % i)})
+allrels = sorted({r for i in range(1, 21) for r in generic.anchors('C%02d' % i)} | {k.split('|')[1] for rid, v in (reference.load() or {}).items() if not rid.startswith('__') and isinstance(v, dict) for k in v.get('units', {})})
 out['__live_params__'] = generic.live_table(Repo('/repo'), allrels)
 from vf import diffrules
 out['__atoms__'] = diffrules.table(Repo('/repo'), allrels)
@@ -16,7 +16,7 @@ reference._REF = None
 for i in range(1, 21):
   prop = 'C%02d' % i
   repo = Repo('/repo')
-  ctx, errors = check.run_rules(prop, '/repo', 'quick', repo=repo, use_reference=False)
+  ctx, errors = check.run_rules(prop, '/repo', 'quick', repo=repo, use_reference=False, shared=False)
   for R in ctx.rules:
     out[R.id] = reference.snapshot(R, repo)
     if R.error:
